@@ -169,32 +169,189 @@ def _reinit_after_store(ck: Check, repo: Repo) -> None:
     ck.ob("C02.1", fn, fn.node, has(src, "$individual.mut = 'param'"), "parameter_mutation reports 'param'", construct="parameter_mutation label")
 
 
+def _owner(root: ast.AST, target: ast.AST) -> ast.AST:
+    """The innermost function (root itself or a closure nested in it) whose body holds `target`."""
+    best = root
+    for f in ast.walk(root):
+        if isinstance(f, (ast.FunctionDef, ast.AsyncFunctionDef)) and f is not root and any(x is target for x in ast.walk(f)) and any(x is f for x in ast.walk(best)):
+            best = f
+    return best
+
+
+def _weak_def(d: Node, name: str) -> bool:
+    """d updates the object bound to local `name` (element store, append ...) without rebinding the name."""
+    s = d.ast
+    if d.kind != "stmt":
+        return False
+    if isinstance(s, ast.Assign):
+        return all(isinstance(t, ast.Subscript) and dotted(t.value) == name for t in s.targets)
+    return isinstance(s, ast.Expr) and isinstance(s.value, ast.Call) and isinstance(s.value.func, ast.Attribute) and dotted(s.value.func.value) == name
+
+
+def _bindings(cfg: CFG, n: Optional[Node], name: str) -> List[Tuple[Optional[ast.AST], Node]]:
+    """(value, definition node) of every binding of local `name` reaching n (element updates of the bound object left out)."""
+    return [(v, d) for v, d in _def_values(cfg, n, name) if not _weak_def(d, name)]
+
+
+class _ReinitScope:
+    """reinit_opt and the closures nested in it: which expressions denote the individual's live networks / a registered optimizer entry."""
+
+    def __init__(self, root: ast.AST):
+        self.root = root
+        a = root.args.args
+        self.ind = a[1].arg if len(a) > 1 else "?individual"          # role: the agent whose optimizers are rebuilt
+        self.sel = {x.arg for x in a[2:]} | {x.arg for x in root.args.kwonlyargs}  # role: the optional registry entry selecting one optimizer
+        self._cfgs: Dict[int, CFG] = {}
+
+    def cfg(self, f: ast.AST) -> CFG:
+        if id(f) not in self._cfgs:
+            self._cfgs[id(f)] = CFG(f)
+        return self._cfgs[id(f)]
+
+    def at(self, target: ast.AST) -> Tuple[ast.AST, CFG, Optional[Node]]:
+        f = _owner(self.root, target)
+        cfg = self.cfg(f)
+        return f, cfg, cfg.node_of(target)
+
+    # ---- live networks
+    def _is_ind(self, f: ast.AST, cfg: CFG, n: Optional[Node], e: ast.AST) -> bool:
+        """e is the individual (the method's parameter, seen from the method or, unrebound, from a closure)."""
+        if not _name_in(e, {self.ind}):
+            return False
+        defs = cfg.defs_reaching(n, e.id) if n is not None else []
+        return all(d.kind == "entry" for d in defs) and (f is self.root or not defs)
+
+    def live(self, f: ast.AST, cfg: CFG, n: Optional[Node], e: Optional[ast.AST], depth: int = 0) -> bool:
+        """e is read from the individual now: getattr(individual, <name>), a list / comprehension of those, a choice between such values,
+        or a local every binding of which is one (a list filled by appends counts through the appended values)."""
+        if e is None or depth > 6:
+            return False
+        if isinstance(e, ast.IfExp):
+            return self.live(f, cfg, n, e.body, depth + 1) and self.live(f, cfg, n, e.orelse, depth + 1)
+        if isinstance(e, ast.Call) and call_name(e) == "getattr" and len(e.args) == 2 and not e.keywords:
+            return self._is_ind(f, cfg, n, e.args[0])
+        if isinstance(e, (ast.List, ast.Tuple)) and e.elts:
+            return all(self.live(f, cfg, n, x, depth + 1) for x in e.elts)
+        if isinstance(e, ast.ListComp):
+            return self.live(f, cfg, n, e.elt, depth + 1)
+        if isinstance(e, ast.Name):
+            bs = _bindings(cfg, n, e.id)
+            if not bs or any(d.kind == "entry" for _, d in bs):
+                return False
+            for v, d in bs:
+                if isinstance(v, ast.List) and not v.elts:
+                    added = [c for c in calls_in(f) if isinstance(c.func, ast.Attribute) and c.func.attr == "append" and _name_in(c.func.value, {e.id})]
+                    if not added or not all(len(c.args) == 1 and self.live(f, cfg, cfg.node_of(c), c.args[0], depth + 1) for c in added):
+                        return False
+                elif not self.live(f, cfg, d, v, depth + 1):
+                    return False
+            return True
+        return False
+
+    def mentions(self, f: ast.AST, cfg: CFG, n: Optional[Node], e: Optional[ast.AST], attr: str, depth: int = 0) -> bool:
+        """Attribute `.attr` occurs in e or in a value a local used by e is bound to."""
+        if e is None or depth > 6:
+            return False
+        bound = {x.id for c in ast.walk(e) if isinstance(c, ast.comprehension) for x in ast.walk(c.target) if isinstance(x, ast.Name)}
+        for x in ast.walk(e):
+            if isinstance(x, ast.Attribute) and x.attr == attr:
+                return True
+            if isinstance(x, ast.Name) and x.id not in bound and n is not None:
+                for v, d in _bindings(cfg, n, x.id):
+                    if d.kind != "entry" and d is not n and self.mentions(f, cfg, d, v, attr, depth + 1):
+                        return True
+        return False
+
+    # ---- registry entries
+    def entries(self, f: ast.AST, cfg: CFG, n: Optional[Node], e: Optional[ast.AST], depth: int = 0) -> bool:
+        """e is a collection of registered optimizer entries: <individual>.registry.optimizers, or a literal / choice / copy of entries."""
+        if e is None or depth > 8:
+            return False
+        if isinstance(e, ast.IfExp):
+            return self.entries(f, cfg, n, e.body, depth + 1) and self.entries(f, cfg, n, e.orelse, depth + 1)
+        if isinstance(e, ast.Attribute) and e.attr == "optimizers":
+            regs = _sources(cfg, n, e.value)
+            return all(isinstance(r, ast.Attribute) and r.attr == "registry" and self._is_ind(f, cfg, n, r.value) for r in regs)
+        if isinstance(e, (ast.List, ast.Tuple)) and e.elts:
+            return all(self.entry(f, cfg, n, x, depth + 1) for x in e.elts)
+        if isinstance(e, ast.Call) and call_name(e) in ("list", "tuple") and len(e.args) == 1 and not e.keywords:
+            return self.entries(f, cfg, n, e.args[0], depth + 1)
+        if isinstance(e, ast.Name):
+            bs = _bindings(cfg, n, e.id)
+            return bool(bs) and all(d.kind == "stmt" and self.entries(f, cfg, d, v, depth + 1) for v, d in bs)
+        return False
+
+    def entry(self, f: ast.AST, cfg: CFG, n: Optional[Node], e: Optional[ast.AST], depth: int = 0) -> bool:
+        """e is a registered optimizer entry: the method's selecting parameter, an element of a collection of entries (loop variable or subscript),
+        or the parameter of a closure every call of which passes an entry."""
+        if e is None or depth > 8 or n is None:
+            return False
+        if isinstance(e, ast.IfExp):
+            return self.entry(f, cfg, n, e.body, depth + 1) and self.entry(f, cfg, n, e.orelse, depth + 1)
+        if isinstance(e, ast.Subscript):
+            return self.entries(f, cfg, n, e.value, depth + 1)
+        if not isinstance(e, ast.Name):
+            return False
+        defs = cfg.defs_reaching(n, e.id)
+        if not defs:
+            return False
+        for d in defs:
+            if d.kind == "entry":
+                if f is self.root:
+                    if e.id not in self.sel:
+                        return False
+                    continue
+                params = [x.arg for x in f.args.args]
+                if e.id not in params:
+                    return False
+                k = params.index(e.id)
+                sites = [c for c in ast.walk(self.root) if isinstance(c, ast.Call) and _name_in(c.func, {f.name})]
+                if not sites:
+                    return False
+                for c in sites:
+                    arg = c.args[k] if k < len(c.args) and not any(isinstance(x, ast.Starred) for x in c.args) else get_kw(c, e.id)
+                    cf, ccfg, cn = self.at(c)
+                    if arg is None or not self.entry(cf, ccfg, cn, arg, depth + 1):
+                        return False
+            elif d.kind == "for":
+                if not (_name_in(d.ast.target, {e.id}) and self.entries(f, cfg, d, d.ast.iter, depth + 1)):
+                    return False
+            elif d.kind == "stmt":
+                v = cfg.value_of_def(d, e.id)
+                if v is None or not self.entry(f, cfg, d, v, depth + 1):
+                    return False
+            else:
+                return False
+        return True
+
+
 def _reinit_opt_provenance(ck: Check, repo: Repo) -> None:
     fn = repo.fn(MUT, "Mutations.reinit_opt")
     ows = [c for c in calls_in(fn.node, nested=True) if call_name(c) == "OptimizerWrapper"]
     ck.floor("C02.2", len(ows), 1, "OptimizerWrapper construction in reinit_opt", fn=fn)
-    inner = [n for n in ast.walk(fn.node) if isinstance(n, ast.FunctionDef) and n is not fn.node]
+    sc = _ReinitScope(fn.node)
     for c in ows:
         lr = get_kw(c, "lr", 2)
         ok = isinstance(lr, ast.Call) and call_name(lr) == "getattr" and dotted(lr.args[0]) == "individual"
         ck.ob("C02.2", fn, c, ok, "lr of the new optimizer = getattr(individual, <lr name>)", detail=f"lr={short(lr, 60)}")
         nets = get_kw(c, "networks", 1)
-        vals = []
-        if isinstance(nets, ast.Name) and inner:
-            for a in ast.walk(inner[0]):
-                if isinstance(a, ast.Assign) and dotted(a.targets[0]) == nets.id:
-                    vals.append(a.value)
-        # built from getattr(individual, ...) and never from the `.networks` the old wrapper holds
-        ok = bool(vals) and all("getattr(individual" in ast.unparse(v) and not any(isinstance(x, ast.Attribute) and x.attr == "networks" for x in ast.walk(v)) for v in vals)
+        f, cfg, n = sc.at(c)
+        vals = _sources(cfg, n, nets) if nets is not None else []
+        # built from getattr(individual, ...) (directly, through temporaries, as a choice or as a list) and never from the `.networks` the old wrapper holds
+        ok = nets is not None and sc.live(f, cfg, n, nets) and not sc.mentions(f, cfg, n, nets, "networks")
         ck.ob("C02.2", fn, c, ok, "networks of the new optimizer = getattr(individual, <network name>) (the live, possibly just replaced, modules)",
-              detail=f"networks built from {[short(v, 70) for v in vals]}")
+              detail=f"networks built from {[short(v, 70) for v in vals if v is not None]}")
         cls_ = get_kw(c, "optimizer_cls", 0)
         ck.ob("C02.2", fn, c, cls_ is not None and "get_optimizer_cls" in ast.unparse(cls_), "the optimizer class comes from the registry entry")
     sets = [c for c in calls_in(fn.node, nested=True) if call_name(c) == "setattr" and dotted(c.args[0]) == "individual"]
-    # the registry entry is the first parameter of the helper that contains the store
-    entry = [f.args.args[0].arg for f in inner if f.args.args and sets and any(x is sets[0] for x in ast.walk(f))]
-    ck.ob("C02.2", fn, sets[0] if sets else fn.node, len(sets) == 1 and bool(entry) and dotted(sets[0].args[1]) == f"{entry[0]}.name",
-          "the new wrapper is stored under the optimizer's registered attribute name")
+    # the key is `<entry>.name`, <entry> being the registry entry this pass works on: the selecting parameter or an element of the individual's registered
+    # optimizers, whether it arrives as the parameter of a helper called once per entry or as the variable of a loop over the entries
+    ok = len(sets) == 1 and len(sets[0].args) == 3
+    if ok:
+        f, cfg, n = sc.at(sets[0])
+        keys = _sources(cfg, n, sets[0].args[1])
+        ok = bool(keys) and all(isinstance(k, ast.Attribute) and k.attr == "name" and sc.entry(f, cfg, n, k.value) for k in keys)
+    ck.ob("C02.2", fn, sets[0] if sets else fn.node, ok, "the new wrapper is stored under the optimizer's registered attribute name")
 
 
 def _shared_rebuilt(ck: Check, repo: Repo) -> None:
@@ -413,8 +570,8 @@ def _critics_follow(ck: Check, repo: Repo) -> None:
     src = ast.unparse(g.node)
     ck.ob("C02.4", g, g.node, has(src, 'for $group in $registry.groups:\n    ...') and has(src, 'getattr($individual, $group.eval)'), "offspring are taken from every registered group", construct="offspring source")
     ck.ob("C02.4", g, g.node, _has_choice(src, 'isinstance($eval_module, list)', '[$mod.clone() for $mod in $eval_module]', '$eval_module.clone()', '$offspring'), "mutations act on clones of the eval networks", construct="offspring cloned")
-    ck.ob("C02.4", g, g.node, has(src, 'if $group.policy:\n    $offspring_policy[$group.eval] = $offspring\nelse:\n    $offspring_modules[$group.eval] = $offspring'),
-          "the policy group is separated from the other eval groups, each keyed by its attribute name", construct="policy split")
+    split_ok, split_why = _policy_split(g)
+    ck.ob("C02.4", g, g.node, split_ok, "the policy group is separated from the other eval groups, each keyed by its attribute name", detail=split_why, construct="policy split")
     # _apply_arch_mutation: calls getattr(net, method)(**args) and returns the name really applied
     ap = repo.fn(MUT, "Mutations._apply_arch_mutation")
     src = ast.unparse(ap.node)
@@ -422,6 +579,124 @@ def _critics_follow(ck: Check, repo: Repo) -> None:
           "the named method is invoked on the network with the recorded arguments", construct="_apply_arch_mutation invocation")
     ck.ob("C02.4", ap, ap.node, has(src, '$applied_muts = $networks.last_mutation_attr') and has(src, '$applied_muts.append($net.last_mutation_attr)'),
           "the name reported is the one the network says was really applied (fallbacks resolved)", construct="_apply_arch_mutation applied name")
+
+
+def _policy_split(g: Fn) -> Tuple[bool, str]:
+    """get_offspring_eval_modules returns (P, O), two distinct dictionaries created empty, and every store into either of them puts the clone of a
+    registered group under `<group>.eval`, into P exactly when `<group>.policy` holds and into O exactly when it does not. How the dictionary is
+    chosen (the branch the store stands in, a conditionally bound temporary, a conditional expression) does not matter."""
+    from ..domains import conjuncts
+    cfg = CFG(g.node)
+    rets = [n for n in cfg.live_nodes() if n.kind == "stmt" and isinstance(n.ast, ast.Return)]
+    pairs = {tuple(dotted(x) for x in v.elts) if isinstance(v, ast.Tuple) and len(v.elts) == 2 and all(isinstance(x, ast.Name) for x in v.elts) else None
+             for r in rets for v in _sources(cfg, r, r.ast.value)}
+    if len(pairs) != 1 or None in pairs:
+        return False, "the function does not return one pair of local dictionaries"
+    P, O = next(iter(pairs))
+    if P == O:
+        return False, "the same dictionary is returned twice"
+
+    def flag(test: ast.AST, pol: bool, grp: str) -> Optional[Set[bool]]:
+        """Outcomes of `<grp>.policy` implied by `test` evaluating to pol; None when the test depends on anything else."""
+        out: Set[bool] = set()
+        for a, p in conjuncts(test, pol):
+            if not (isinstance(a, ast.Attribute) and a.attr == "policy" and _name_in(a.value, {grp})):
+                return None
+            out.add(p)
+        return out
+
+    def ctx(n: Node, grp: str) -> Optional[Set[bool]]:
+        out: Set[bool] = set()
+        for t, pol, _ in cfg.guards_at(n):
+            fl = flag(t, pol, grp)
+            if fl is None:
+                return None
+            out |= fl
+        return out
+
+    def dests(n: Node, e: ast.AST, pols: frozenset, grp: str, depth: int = 0) -> Optional[List[Tuple[str, Node, frozenset]]]:
+        """(dictionary, its creation, outcomes of the policy flag under which it is the one e denotes at n); None = not resolvable."""
+        if depth > 6:
+            return None
+        if isinstance(e, ast.IfExp):
+            out = []
+            for arm, armpol in ((e.body, True), (e.orelse, False)):
+                fl = flag(e.test, armpol, grp)
+                r = dests(n, arm, pols | fl, grp, depth + 1) if fl is not None else None
+                if r is None:
+                    return None
+                out += r
+            return out
+        if not isinstance(e, ast.Name):
+            return None
+        out = []
+        bs = [d for d in cfg.defs_reaching(n, e.id) if not _weak_def(d, e.id)]
+        if not bs:
+            return None
+        for d in bs:
+            v = cfg.value_of_def(d, e.id)
+            if d.kind != "stmt" or v is None:
+                return None
+            if (isinstance(v, ast.Dict) and not v.keys) or (isinstance(v, ast.Call) and call_name(v) == "dict" and not v.args and not v.keywords):
+                out.append((e.id, d, pols))
+                continue
+            c = ctx(d, grp)
+            r = dests(d, v, pols | c, grp, depth + 1) if c is not None else None
+            if r is None:
+                return None
+            out += r
+        return out
+
+    def cloned(n: Node, e: Optional[ast.AST], depth: int = 0) -> bool:
+        if e is None or depth > 6:
+            return False
+        if isinstance(e, ast.IfExp):
+            return cloned(n, e.body, depth + 1) and cloned(n, e.orelse, depth + 1)
+        if isinstance(e, ast.ListComp):
+            return cloned(n, e.elt, depth + 1)
+        if isinstance(e, ast.Call):
+            return isinstance(e.func, ast.Attribute) and e.func.attr == "clone" and not e.args and not e.keywords
+        if isinstance(e, ast.Name):
+            bs = _bindings(cfg, n, e.id)
+            return bool(bs) and all(d.kind == "stmt" and cloned(d, v, depth + 1) for v, d in bs)
+        return False
+
+    got: Set[Tuple[str, bool]] = set()
+    made: Dict[str, Set[int]] = {}
+    stores = [n for n in cfg.live_nodes() if n.kind == "stmt" and isinstance(n.ast, ast.Assign) and any(isinstance(t, ast.Subscript) for t in n.ast.targets)]
+    for s in stores:
+        if len(s.ast.targets) != 1:
+            return False, f"line {s.lineno}: chained store"
+        t = s.ast.targets[0]
+        free = dests(s, t.value, frozenset(), "?")
+        if free is not None and not any(nm in (P, O) for nm, _, _ in free):
+            continue  # some other container
+        keys = _sources(cfg, s, t.slice)
+        grps = {k.value.id if isinstance(k, ast.Attribute) and k.attr == "eval" and isinstance(k.value, ast.Name) else None for k in keys}
+        if len(grps) != 1 or None in grps:
+            return False, f"line {s.lineno}: the key is not `<group>.eval`"
+        grp = next(iter(grps))
+        gdefs = cfg.defs_reaching(s, grp)
+        if not gdefs or not all(d.kind == "for" and _name_in(d.ast.target, {grp}) and isinstance(d.ast.iter, ast.Attribute) and d.ast.iter.attr == "groups" for d in gdefs):
+            return False, f"line {s.lineno}: `{grp}` is not the variable of a loop over the registered groups"
+        if not cloned(s, s.ast.value):
+            return False, f"line {s.lineno}: the stored value is not the clone"
+        here = ctx(s, grp)
+        ds = dests(s, t.value, frozenset(here), grp) if here is not None else None
+        if ds is None:
+            return False, f"line {s.lineno}: the destination is not decided by `{grp}.policy` alone"
+        for nm, d, pols in ds:
+            if len(pols) == 2:
+                continue  # contradictory: not a feasible path
+            if len(pols) != 1:
+                return False, f"line {s.lineno}: `{nm}` receives the clone whatever `{grp}.policy` says"
+            got.add((nm, next(iter(pols))))
+            made.setdefault(nm, set()).add(d.id)
+    if got != {(P, True), (O, False)}:
+        return False, f"(dictionary, policy flag) pairs stored: {sorted(got)}; returned: ({P}, {O})"
+    if any(len(v) != 1 for v in made.values()):
+        return False, "a returned dictionary has more than one creation"
+    return True, ""
 
 
 def _registry_complete(ck: Check, repo: Repo) -> None:
@@ -619,4 +894,36 @@ VARIANTS = [
      "        if self.new_layer_prob < 1:\n            mut_method = get_architecture_mut_method(policy_offspring, self.new_layer_prob, self.rng)\n        else:\n            mut_method = get_architecture_mut_method(policy_offspring, 1.0, self.rng)\n", "silent", None),
     ("sampled-method-conditional-expression-ok", _MF, "        mut_method = get_architecture_mut_method(\n            policy_offspring, self.new_layer_prob, self.rng\n        )\n",
      "        mut_method = get_architecture_mut_method(policy_offspring, self.new_layer_prob, self.rng) if self.new_layer_prob < 1 else get_architecture_mut_method(policy_offspring, 1.0, self.rng)\n", "silent", None),
+    # round 4: the closure of reinit_opt inlined into one loop over the entries, choices as conditional expressions over temporaries; the destination
+    # dictionary of get_offspring_eval_modules chosen by a conditional expression (same programs), and the corresponding broken forms
+    ('reinit-closure-inlined-into-loop-ok', _MF, '        def _reinit_individual(config: OptimizerConfig) -> None:\n            opt: Union[OptimizerWrapper, DeepSpeedOptimizerWrapper] = getattr(\n                individual, config.name\n            )\n            optimizer = opt.optimizer\n\n            # Multiple optimizers in a single attribute (i.e. multi-agent)\n            # or one module optimized by a single optimizer\n            if isinstance(opt, DeepSpeedOptimizerWrapper):\n                for param_group in opt.param_groups:\n                    param_group["lr"] = individual.lr\n            else:\n                if isinstance(optimizer, list) or len(opt.network_names) == 1:\n                    opt_nets = getattr(individual, opt.network_names[0])\n\n                # Multiple modules optimized by a single optimizer (e.g. PPO)\n                else:\n                    opt_nets = [getattr(individual, net) for net in opt.network_names]\n\n                # Reinitialize optimizer with mutated nets\n                offspring_opt = OptimizerWrapper(\n                    optimizer_cls=config.get_optimizer_cls(),\n                    networks=opt_nets,\n                    lr=getattr(individual, opt.lr_name),\n                    optimizer_kwargs=opt.optimizer_kwargs,\n                    network_names=opt.network_names,\n                    lr_name=opt.lr_name,\n                    multiagent=opt.multiagent,\n                )\n\n                setattr(individual, config.name, offspring_opt)\n\n        if optimizer is not None:\n            _reinit_individual(optimizer)\n        else:\n            optimizer_configs = individual.registry.optimizers\n            for opt_config in optimizer_configs:\n                _reinit_individual(opt_config)\n\n',
+     '        # Either the one optimizer that was asked for or every registered optimizer\n        configs = (\n            [optimizer] if optimizer is not None else individual.registry.optimizers\n        )\n        for config in configs:\n            opt: Union[OptimizerWrapper, DeepSpeedOptimizerWrapper] = getattr(\n                individual, config.name\n            )\n            inner_opt = opt.optimizer\n\n            if isinstance(opt, DeepSpeedOptimizerWrapper):\n                for param_group in opt.param_groups:\n                    param_group["lr"] = individual.lr\n            else:\n                # Multiple optimizers in a single attribute (i.e. multi-agent) or one\n                # module optimized by a single optimizer: the attribute itself. Multiple\n                # modules optimized by a single optimizer (e.g. PPO): the list of modules\n                names = opt.network_names\n                single_attr = isinstance(inner_opt, list) or len(names) == 1\n                opt_nets = (\n                    getattr(individual, names[0])\n                    if single_attr\n                    else [getattr(individual, net) for net in names]\n                )\n\n                # Reinitialize optimizer with mutated nets\n                offspring_opt = OptimizerWrapper(\n                    optimizer_cls=config.get_optimizer_cls(),\n                    networks=opt_nets,\n                    lr=getattr(individual, opt.lr_name),\n                    optimizer_kwargs=opt.optimizer_kwargs,\n                    network_names=opt.network_names,\n                    lr_name=opt.lr_name,\n                    multiagent=opt.multiagent,\n                )\n\n                setattr(individual, config.name, offspring_opt)\n\n', 'silent', None),
+    ('reinit-closure-inlined-store-under-lr-name', _MF, '        def _reinit_individual(config: OptimizerConfig) -> None:\n            opt: Union[OptimizerWrapper, DeepSpeedOptimizerWrapper] = getattr(\n                individual, config.name\n            )\n            optimizer = opt.optimizer\n\n            # Multiple optimizers in a single attribute (i.e. multi-agent)\n            # or one module optimized by a single optimizer\n            if isinstance(opt, DeepSpeedOptimizerWrapper):\n                for param_group in opt.param_groups:\n                    param_group["lr"] = individual.lr\n            else:\n                if isinstance(optimizer, list) or len(opt.network_names) == 1:\n                    opt_nets = getattr(individual, opt.network_names[0])\n\n                # Multiple modules optimized by a single optimizer (e.g. PPO)\n                else:\n                    opt_nets = [getattr(individual, net) for net in opt.network_names]\n\n                # Reinitialize optimizer with mutated nets\n                offspring_opt = OptimizerWrapper(\n                    optimizer_cls=config.get_optimizer_cls(),\n                    networks=opt_nets,\n                    lr=getattr(individual, opt.lr_name),\n                    optimizer_kwargs=opt.optimizer_kwargs,\n                    network_names=opt.network_names,\n                    lr_name=opt.lr_name,\n                    multiagent=opt.multiagent,\n                )\n\n                setattr(individual, config.name, offspring_opt)\n\n        if optimizer is not None:\n            _reinit_individual(optimizer)\n        else:\n            optimizer_configs = individual.registry.optimizers\n            for opt_config in optimizer_configs:\n                _reinit_individual(opt_config)\n\n',
+     '        # Either the one optimizer that was asked for or every registered optimizer\n        configs = (\n            [optimizer] if optimizer is not None else individual.registry.optimizers\n        )\n        for config in configs:\n            opt: Union[OptimizerWrapper, DeepSpeedOptimizerWrapper] = getattr(\n                individual, config.name\n            )\n            inner_opt = opt.optimizer\n\n            if isinstance(opt, DeepSpeedOptimizerWrapper):\n                for param_group in opt.param_groups:\n                    param_group["lr"] = individual.lr\n            else:\n                # Multiple optimizers in a single attribute (i.e. multi-agent) or one\n                # module optimized by a single optimizer: the attribute itself. Multiple\n                # modules optimized by a single optimizer (e.g. PPO): the list of modules\n                names = opt.network_names\n                single_attr = isinstance(inner_opt, list) or len(names) == 1\n                opt_nets = (\n                    getattr(individual, names[0])\n                    if single_attr\n                    else [getattr(individual, net) for net in names]\n                )\n\n                # Reinitialize optimizer with mutated nets\n                offspring_opt = OptimizerWrapper(\n                    optimizer_cls=config.get_optimizer_cls(),\n                    networks=opt_nets,\n                    lr=getattr(individual, opt.lr_name),\n                    optimizer_kwargs=opt.optimizer_kwargs,\n                    network_names=opt.network_names,\n                    lr_name=opt.lr_name,\n                    multiagent=opt.multiagent,\n                )\n\n                setattr(individual, opt.lr_name, offspring_opt)\n\n', 'fire', 'C02.2'),
+    ('reinit-closure-inlined-nets-from-old-wrapper', _MF, '        def _reinit_individual(config: OptimizerConfig) -> None:\n            opt: Union[OptimizerWrapper, DeepSpeedOptimizerWrapper] = getattr(\n                individual, config.name\n            )\n            optimizer = opt.optimizer\n\n            # Multiple optimizers in a single attribute (i.e. multi-agent)\n            # or one module optimized by a single optimizer\n            if isinstance(opt, DeepSpeedOptimizerWrapper):\n                for param_group in opt.param_groups:\n                    param_group["lr"] = individual.lr\n            else:\n                if isinstance(optimizer, list) or len(opt.network_names) == 1:\n                    opt_nets = getattr(individual, opt.network_names[0])\n\n                # Multiple modules optimized by a single optimizer (e.g. PPO)\n                else:\n                    opt_nets = [getattr(individual, net) for net in opt.network_names]\n\n                # Reinitialize optimizer with mutated nets\n                offspring_opt = OptimizerWrapper(\n                    optimizer_cls=config.get_optimizer_cls(),\n                    networks=opt_nets,\n                    lr=getattr(individual, opt.lr_name),\n                    optimizer_kwargs=opt.optimizer_kwargs,\n                    network_names=opt.network_names,\n                    lr_name=opt.lr_name,\n                    multiagent=opt.multiagent,\n                )\n\n                setattr(individual, config.name, offspring_opt)\n\n        if optimizer is not None:\n            _reinit_individual(optimizer)\n        else:\n            optimizer_configs = individual.registry.optimizers\n            for opt_config in optimizer_configs:\n                _reinit_individual(opt_config)\n\n',
+     '        # Either the one optimizer that was asked for or every registered optimizer\n        configs = (\n            [optimizer] if optimizer is not None else individual.registry.optimizers\n        )\n        for config in configs:\n            opt: Union[OptimizerWrapper, DeepSpeedOptimizerWrapper] = getattr(\n                individual, config.name\n            )\n            inner_opt = opt.optimizer\n\n            if isinstance(opt, DeepSpeedOptimizerWrapper):\n                for param_group in opt.param_groups:\n                    param_group["lr"] = individual.lr\n            else:\n                # Multiple optimizers in a single attribute (i.e. multi-agent) or one\n                # module optimized by a single optimizer: the attribute itself. Multiple\n                # modules optimized by a single optimizer (e.g. PPO): the list of modules\n                names = opt.network_names\n                single_attr = isinstance(inner_opt, list) or len(names) == 1\n                opt_nets = (\n                    getattr(individual, names[0])\n                    if single_attr\n                    else opt.networks\n                )\n\n                # Reinitialize optimizer with mutated nets\n                offspring_opt = OptimizerWrapper(\n                    optimizer_cls=config.get_optimizer_cls(),\n                    networks=opt_nets,\n                    lr=getattr(individual, opt.lr_name),\n                    optimizer_kwargs=opt.optimizer_kwargs,\n                    network_names=opt.network_names,\n                    lr_name=opt.lr_name,\n                    multiagent=opt.multiagent,\n                )\n\n                setattr(individual, config.name, offspring_opt)\n\n', 'fire', 'C02.2'),
+    ('reinit-dispatch-one-loop-ok', _MF, '        if optimizer is not None:\n            _reinit_individual(optimizer)\n        else:\n            optimizer_configs = individual.registry.optimizers\n            for opt_config in optimizer_configs:\n                _reinit_individual(opt_config)\n',
+     '        for opt_config in ([optimizer] if optimizer is not None else individual.registry.optimizers):\n            _reinit_individual(opt_config)\n', 'silent', None),
+    ('reinit-dispatch-loop-over-groups', _MF, '        if optimizer is not None:\n            _reinit_individual(optimizer)\n        else:\n            optimizer_configs = individual.registry.optimizers\n            for opt_config in optimizer_configs:\n                _reinit_individual(opt_config)\n',
+     '        for opt_config in ([optimizer] if optimizer is not None else individual.registry.groups):\n            _reinit_individual(opt_config)\n', 'fire', 'C02.2'),
+    ('opt-nets-conditional-expression-ok', _MF, '                if isinstance(optimizer, list) or len(opt.network_names) == 1:\n                    opt_nets = getattr(individual, opt.network_names[0])\n\n                # Multiple modules optimized by a single optimizer (e.g. PPO)\n                else:\n                    opt_nets = [getattr(individual, net) for net in opt.network_names]\n',
+     '                names = opt.network_names\n                single_attr = isinstance(optimizer, list) or len(names) == 1\n                opt_nets = getattr(individual, names[0]) if single_attr else [getattr(individual, net) for net in names]\n', 'silent', None),
+    ('opt-nets-appended-in-loop-ok', _MF, '                if isinstance(optimizer, list) or len(opt.network_names) == 1:\n                    opt_nets = getattr(individual, opt.network_names[0])\n\n                # Multiple modules optimized by a single optimizer (e.g. PPO)\n                else:\n                    opt_nets = [getattr(individual, net) for net in opt.network_names]\n',
+     '                if isinstance(optimizer, list) or len(opt.network_names) == 1:\n                    opt_nets = getattr(individual, opt.network_names[0])\n                else:\n                    opt_nets = []\n                    for net in opt.network_names:\n                        opt_nets.append(getattr(individual, net))\n', 'silent', None),
+    ('opt-nets-temporary-from-old-wrapper', _MF, '                if isinstance(optimizer, list) or len(opt.network_names) == 1:\n                    opt_nets = getattr(individual, opt.network_names[0])\n\n                # Multiple modules optimized by a single optimizer (e.g. PPO)\n                else:\n                    opt_nets = [getattr(individual, net) for net in opt.network_names]\n',
+     '                names = opt.network_names\n                old_nets = opt.networks\n                opt_nets = getattr(individual, names[0]) if len(names) == 1 else old_nets\n', 'fire', 'C02.2'),
+    ('policy-split-destination-temporary-ok', _MF, '        if group.policy:\n            offspring_policy[group.eval] = offspring\n        else:\n            offspring_modules[group.eval] = offspring\n',
+     '        destination = offspring_policy if group.policy else offspring_modules\n        destination[group.eval] = offspring\n', 'silent', None),
+    ('policy-split-negated-test-ok', _MF, '        if group.policy:\n            offspring_policy[group.eval] = offspring\n        else:\n            offspring_modules[group.eval] = offspring\n',
+     '        if not group.policy:\n            destination = offspring_modules\n        else:\n            destination = offspring_policy\n        destination[group.eval] = offspring\n', 'silent', None),
+    ('policy-split-destination-swapped', _MF, '        if group.policy:\n            offspring_policy[group.eval] = offspring\n        else:\n            offspring_modules[group.eval] = offspring\n',
+     '        destination = offspring_modules if group.policy else offspring_policy\n        destination[group.eval] = offspring\n', 'fire', 'C02.4'),
+    ('policy-split-destination-unconditional', _MF, '        if group.policy:\n            offspring_policy[group.eval] = offspring\n        else:\n            offspring_modules[group.eval] = offspring\n',
+     '        destination = offspring_modules\n        destination[group.eval] = offspring\n', 'fire', 'C02.4'),
+    ('policy-split-keyed-by-policy-name', _MF, '        if group.policy:\n            offspring_policy[group.eval] = offspring\n        else:\n            offspring_modules[group.eval] = offspring\n',
+     '        destination = offspring_policy if group.policy else offspring_modules\n        destination[registry.policy] = offspring\n', 'fire', 'C02.4'),
+    ('policy-split-stores-original', _MF, '        if group.policy:\n            offspring_policy[group.eval] = offspring\n        else:\n            offspring_modules[group.eval] = offspring\n',
+     '        destination = offspring_policy if group.policy else offspring_modules\n        destination[group.eval] = eval_module\n', 'fire', 'C02.4'),
+    ('policy-split-return-swapped', _MF, '    return offspring_policy, offspring_modules\n',
+     '    return offspring_modules, offspring_policy\n', 'fire', 'C02.4'),
 ]
